@@ -44,7 +44,18 @@ func marshal(val cty.Value, t cty.Type, path cty.Path, b *bytes.Buffer) error {
 			if val.RawEquals(cty.PositiveInfinity) || val.RawEquals(cty.NegativeInfinity) {
 				return path.NewErrorf("cannot serialize infinity as JSON")
 			}
-			b.WriteString(val.AsBigFloat().Text('f', -1))
+			bf := val.AsBigFloat()
+			text := bf.Text('f', -1)
+			if bf.IsInt() {
+				// Whole numbers compare exactly, but the shortest text that
+				// identifies a number at its own precision can denote another
+				// integer once it is parsed back at the decoder's precision
+				// (e.g. the float64 1e23). In that case write every digit.
+				if back, err := cty.ParseNumberVal(text); err != nil || back.AsBigFloat().Cmp(bf) != 0 {
+					text = bf.Text('f', 0)
+				}
+			}
+			b.WriteString(text)
 			return nil
 		case cty.Bool:
 			if val.True() {
